@@ -10,7 +10,7 @@
 // except according to those terms.
 
 use crate::client::{MetricBackend, StatsdClient};
-use crate::types::{Metric, MetricError, MetricResult};
+use crate::types::{ErrorKind, Metric, MetricError, MetricResult};
 use std::fmt::{self, Write};
 use std::marker::PhantomData;
 
@@ -559,6 +559,9 @@ where
         match self.repr {
             BuilderRepr::Error(err, _) => Err(err),
             BuilderRepr::Success(ref formatter, client) => {
+                if formatter.val.count() == 0 {
+                    return Err(MetricError::from((ErrorKind::InvalidInput, "no values")));
+                }
                 let metric = T::from(formatter.format());
                 client.send_metric(&metric)?;
                 Ok(metric)
